@@ -65,11 +65,15 @@ mutual
       rw [writeExpr_erase fn _ h, head_erase _ _ (by simp [h, pretty_writeExpr]),
         writeExprList_erase args _ _ (by simp [h, pretty_writeExpr])]
     | .member tok obj prop c, cw, h => by
-      simp only [Expr.erase, writeExpr]
-      rw [writeExpr_erase obj _ h, head_erase _ _ (by simp [h, pretty_writeExpr])]
+      have hd : obj.erase.isDecimalInt = obj.isDecimalInt := by
+        cases obj <;> simp [Expr.erase, Expr.isDecimalInt, Token.noComments]
+      simp only [Expr.erase, writeExpr, hd]
+      rw [writeExpr_erase obj _ h, leadingComments_erase _ _ (by simp [h, pretty_writeExpr])]
       split
-      · rw [writeExpr_erase prop _ (by simp [h, pretty_writeExpr])]
-      · rw [writeExpr_erase prop _ (by simp [h, pretty_writeExpr])]
+      · rw [writeExpr_erase prop _ (by simp [h, pretty_writeExpr])]; rfl
+      · split
+        · rw [writeExpr_erase prop _ (by simp [h, pretty_writeExpr])]; rfl
+        · rw [writeExpr_erase prop _ (by simp [h, pretty_writeExpr])]; rfl
     | .assign tok l v, cw, h => by
       simp only [Expr.erase, writeExpr]
       rw [writeExpr_erase l _ h, head_erase _ _ (by simp [h, pretty_writeExpr]),
